@@ -47,6 +47,16 @@ PANIC_CLASS = {"bank_outp_label": "output_position_overflow_unwritten", "bank_ou
                "asm_block_position": "asm_block_position_overflow", "bank_outp_two": "bank_window_end_overflow"}
 
 
+def is_modelled(fam):
+    return fam in MODELLED or fam.startswith("bankcombo_") or fam.startswith("neartop_")
+
+
+def panic_class(fam):
+    if fam.startswith("neartop_5_"):
+        return "asm_block_position_overflow"
+    return PANIC_CLASS.get(fam)
+
+
 def known_classes():
     return {f["class"]: f for f in vlib.known_findings() if f.get("status") == "known" and f.get("class")}
 
@@ -93,7 +103,15 @@ def hexz(m):
 
 def model_outcomes(exe, pairs):
     """pairs: list of (position, magnitude) -> list of (cls, work, x)"""
-    lines = [("B %s %s" % (p[len("bankcombo_"):], hexz(m))) if p.startswith("bankcombo_") else ("F %s %s" % (p, hexz(m))) for p, m in pairs]
+    lines = []
+    for p, m in pairs:
+        if p.startswith("bankcombo_"):
+            lines.append("B %s %s" % (p[len("bankcombo_"):], hexz(m)))
+        elif p.startswith("neartop_"):
+            _, path, n = p.split("_")
+            lines.append("T %s %s %s" % (path, n, hexz(m)))
+        else:
+            lines.append("F %s %s" % (p, hexz(m)))
     out = vlib.run_lines([exe], lines)
     res = []
     for o in out:
@@ -184,8 +202,8 @@ def classify_bin(case, res, mod, prof):
         return "long_elif_chain"
     if fam in F.LEFT_RECURSIVE and stack:
         return "left_recursive_subrule"
-    if mod is not None and mod[0] == "panic" and fam in PANIC_CLASS and (o == "panic" or (prof == "release" and o in ("ok", "error"))):
-        return PANIC_CLASS[fam]
+    if mod is not None and mod[0] == "panic" and panic_class(fam) and (o == "panic" or (prof == "release" and o in ("ok", "error"))):
+        return panic_class(fam)
     if fam == "concat_width" and 2 * m > MB and o in ("timeout", "signal"):
         return "concat_unbounded"
     if fam == "neg_pow_slice" and m >= (1 << 17) and o == "timeout":
@@ -233,7 +251,10 @@ def run(chk):
     for k in ((0, 3, 8, 16, 24, 27, 28, 29, 30, 32, 33, 40, 48, 61, 63, 64, 70) if quick else range(0, 71)):
         cm.add(1 << k)
     all_cases += F.bank_combo_cases(sorted(cm))
-    modelled = [c for c in all_cases if c["family"] in MODELLED or c["family"].startswith("bankcombo_")]
+    # every position-advancing path (labelalign padding, #align, #res, data, instruction, asm block, #addr, bank switch)
+    # at positions 2^64 - k: error class + no panic + (through the label value) no silent wrap in release
+    all_cases += F.near_top_cases(quick)
+    modelled = [c for c in all_cases if is_modelled(c["family"])]
     mods = model_outcomes(model, [(c["family"], c["param"]) for c in modelled])
     modmap = {(c["family"], c["param"]): mo for c, mo in zip(modelled, mods)}
     for c, mo in zip(modelled, mods):
@@ -272,7 +293,7 @@ def run(chk):
         elif (d, dx) != (r, rx):
             bad = "debug and release builds disagree (%s x=%s / %s x=%s): silent wrap" % (d, dx, r, rx)
         if bad:
-            cls = PANIC_CLASS.get(fam) if mo[0] == "panic" else None
+            cls = panic_class(fam) if mo[0] == "panic" else None
             rep.fail(cls, "%s with magnitude %d: %s" % (fam, m, bad), replay)
             continue
         # correspondence with the guard model (the spec predicate holds here: no panic, no divergence)
@@ -308,7 +329,7 @@ def run(chk):
     for fam, m in slow_probes:
         if (fam, m) not in have:
             bin_cases += F.magnitude_cases([m], {fam})
-    extra = [(c["family"], c["param"]) for c in bin_cases if (c["family"] in MODELLED or c["family"].startswith("bankcombo_")) and (c["family"], c["param"]) not in modmap]
+    extra = [(c["family"], c["param"]) for c in bin_cases if is_modelled(c["family"]) and (c["family"], c["param"]) not in modmap]
     for (k, mo) in zip(extra, model_outcomes(model, extra)):
         modmap[k] = mo
     nbin = 0
@@ -332,7 +353,7 @@ def run(chk):
                     fam, m, prof, r["outcome"], r["status"], r["signal"], r["wall"]), replay)
             elif mo is not None and mo[0] == "panic":
                 # the model says a usize operation overflows; the run looked clean: silent wrap (release) or model wrong
-                cls = PANIC_CLASS.get(fam) if prof == "release" else None
+                cls = panic_class(fam) if prof == "release" else None
                 if cls:
                     rep.fail(cls, "%s %d (%s build): overflow wrapped silently (exit %s)" % (fam, m, prof, r["status"]), replay)
                 else:
